@@ -48,6 +48,7 @@ type childSpec struct {
 	ListedCtx  string   `json:"listed_ctx"`  // a context URL that is on the configured allow list ("" if none)
 	Outbound   []outURL `json:"outbound"`    // URL classes to try through the node's HTTP clients once it runs
 	DummyProbe bool     `json:"dummy_probe"` // try the dummy authentication means
+	DummyMeans []string `json:"dummy_means,omitempty"` // other spellings under which the configuration names the dummy means: asked for as well
 	// context URLs to ask the node's JSON-LD document loader for (jsonld_test.go), and what the fake servers of some listed contexts answer
 	Contexts []ctxProbe         `json:"contexts,omitempty"`
 	Carriers map[string]carrier `json:"carriers,omitempty"`
@@ -354,6 +355,10 @@ func runProbes(led jsonLedger, rec *recorder, sp childSpec, system *core.System)
 	if sp.DummyProbe {
 		st, body, err := post(base+"/internal/auth/v1/signature/session", "POST", map[string]any{"means": "dummy", "payload": contractText, "params": map[string]any{}})
 		led.put(ledgerLine{Ev: "probe", Probe: "dummy-session", Status: st, Err: errStr(err), OK: st == 201, Msg: short(body)})
+		for _, means := range sp.DummyMeans {
+			st, body, err := post(base+"/internal/auth/v1/signature/session", "POST", map[string]any{"means": means, "payload": contractText, "params": map[string]any{}})
+			led.put(ledgerLine{Ev: "probe", Probe: "dummy-session-as-configured", Class: means, Status: st, Err: errStr(err), OK: st == 201, Msg: short(body)})
+		}
 		vp := map[string]any{
 			"@context": []string{"https://www.w3.org/2018/credentials/v1"},
 			"type":     []string{"VerifiablePresentation", "DummyVerifiablePresentation"},
